@@ -11,6 +11,16 @@ BASE_NOTE = ("Trusted base: CPython's ast parser, the engines under /verif/sa (p
              "conditions of the property - and not the value-level behaviour; see DESIGN.md for what is not decided.")
 
 CLAIMS = {
+    "C16": dict(
+        text=("Static rules: (R16.1) parameter influence: by intra-procedural def-use closure (with control dependence of assigning branches, guards that only raise excluded) every parameter "
+              "of the 18 week/weekday constructors, navigators and adjusters reaches the returned value; (R16.2) range prover + linear forms: the numeric day of week is in [1,7] on both sign arms, "
+              "next/previous add (target - current) + 7k with the step proved in [1,7] / [-7,-1], and the or-same adjusters return the date itself exactly when the weekday matches, else delegate; "
+              "(R16.3) days-into-week in [0,6] at both sites; (R16.4) abstract evaluation of the rule factories: ISO = (4, Monday, regular), CalendarWeekRule table 1/4/7 irregular, "
+              "for_min_days regular, LocalDate.from_week_year_week_and_day = ISO rule + ISO calendar; (R16.5) no optional calendar dropped while one is in scope. "
+              "Decides wiring/range/influence structure; inverse-ness of (week-year, week, day) and agreement with isocalendar are not decided."),
+        design_ref="DESIGN.md section 3, C16",
+        technique="static analysis: def-use parameter influence, interval abstract interpretation with linear forms, abstract evaluation of factory wiring",
+    ),
     "C14": dict(
         text=("Static rules over the zone-data codec: (R14.1) for all 8 composite writer/reader pairs the ordered sequences of primitive operations (in Python evaluation order, loops unrolled "
               "0-3 times, optional parts both ways, nested composites as tokens) are equal as sets; (R14.3) compact millisecond encoding: each arm's guard is exact divisibility by the constant "
